@@ -2390,6 +2390,10 @@ class BDD(dd._abc.BDD[_Ref]):
                 f'Unknown file type of "{filename}"')
         umap, roots = self._load_pickle(
             filename, levels=levels)
+        if roots is None:
+            # the file was dumped without
+            # naming roots (all nodes)
+            return list()
         def map_node(u):
             v = umap[abs(u)]
             if u < 0:
